@@ -673,6 +673,12 @@ def match_record_roles(ctx, rule='PAIR'):
 
     def role_of_name(nm):
         toks = nm.lower().split('_')
+        # only names that speak about the MATCH ('start', 'next_start', 'prev_end', 'twprge_end'); a name
+        # like `block_end` says where the block ends - which may well be the START of the next match
+        about_match = {'next', 'prev', 'previous', 'last', 'twprge', 'tr', 'sec', 'match', 'mo', 'this', 'cur', 'current',
+                       'new', 'old', 'first', 'start', 'end', 'pos', 'position', 'idx', 'index', 'of'}
+        if not set(toks) <= about_match:
+            return None
         if 'start' in toks:
             return 'start'
         if 'end' in toks:
@@ -1025,7 +1031,7 @@ def test_then_shrink(ctx, funcs, rule='DEFUSE'):
     return n
 
 
-def no_dedup_on_insert(ctx, funcs, rule='SINK', exempt=('duplicates', 'unique', 'dedup')):
+def no_dedup_on_insert(ctx, funcs, rule='SINK', exempt=('duplicate', 'unique', 'dedup')):
     """Containers keep every element they are given, equal or not (only the
     duplicate filters may drop): an append / add that runs only when the
     element (or its id) is `not in` a collection the same function fills is a
@@ -1047,6 +1053,19 @@ def no_dedup_on_insert(ctx, funcs, rule='SINK', exempt=('duplicates', 'unique', 
             elem = c.args[0]
             names = {x.id for x in ast.walk(elem) if isinstance(x, ast.Name)}
             n += 1
+            # `target.extend([t for t in xs if t not in target])`: the filter sits inside the argument
+            if isinstance(elem, (ast.ListComp, ast.GeneratorExp)) and len(elem.generators) == 1:
+                g_ = elem.generators[0]
+                tgt_txt = norm(c.func.value)
+                for t_ in g_.ifs:
+                    if isinstance(t_, ast.Compare) and len(t_.ops) == 1 and isinstance(t_.ops[0], ast.NotIn) \
+                            and isinstance(g_.target, ast.Name) and norm(t_.left) == g_.target.id \
+                            and norm(t_.comparators[0]) == tgt_txt:
+                        ctx.violation(rule, f"{fi.qualname}: every element is kept (`{norm(c)[:50]}`)",
+                                      f"`{norm(c)[:70]}` only adds what `{tgt_txt}` does not hold yet: an element that is equal to "
+                                      f"(or the same object as) one already there is dropped without notice - grouping / unpacking "
+                                      f"no longer returns every element that went in",
+                                      key=f"{rule}|{fi.qualname}|dedup-extend|{tgt_txt[:20]}", where=loc(fi, c))
             for e, txt, pol in facts_at(c):
                 if pol or not (isinstance(e, ast.Compare) and isinstance(e.ops[0], ast.In)):
                     continue
@@ -1221,7 +1240,7 @@ def total_lookups(ctx, funcs, rule='EXC'):
     return n
 
 
-def dedup_idioms(ctx, funcs, rule='SINK', exempt=('duplicates', 'unique', 'dedup')):
+def dedup_idioms(ctx, funcs, rule='SINK', exempt=('duplicate', 'unique', 'dedup')):
     """`list(dict.fromkeys(xs))`, `list(set(xs))`, `sorted(set(xs))` used to
     BUILD a result drop repeated entries.  The parse path keeps repetitions
     (a section or lot named twice gives two entries and a dup_* flag); only
